@@ -19,9 +19,11 @@ def run_check(tier, seed, replay=None):
     critical_positions(c, wd, "C05", seed)
     # every byte string up to a length
     sh = os.path.join(wd, "short.res")
-    vh(["deflate-short", "--maxlen", 2 if tier == "quick" else 3, "--out", sh, "--threads", 14], timeout=7200)
+    rc, _, _ = run([VH, "deflate-short", "--maxlen", str(2 if tier == "quick" else 3), "--out", sh, "--threads", "14"], 7200)
+    if rc not in (0, 3):
+        raise ToolError("vh deflate-short exited %s" % rc)
     sres = list(read_ndjson(sh))
-    account(c, [r for r in sres if r["kind"] == "case"], "C05", "short")
+    account(c, [r for r in sres if r["kind"] in ("case", "timeout")], "C05", "short")
     for r in sres:
         if r["kind"] == "summary":
             c.cov["evaluations"] += r["evaluations"]
